@@ -63,19 +63,40 @@ func (ft *funcTr) expr(e ast.Expr, want types.Type) ([]pre, string) {
 	case *ast.CallExpr:
 		return ft.call(x, want)
 	case *ast.IndexExpr:
-		if !isBytesLike(t.kindOf(t.info.Types[x.X].Type)) {
-			t.fail(e, "index expression on a value of type %s", t.info.Types[x.X].Type)
+		XT := t.info.Types[x.X].Type
+		switch k := t.kindOf(XT); {
+		case k == kMap:
+			// m[k] on a map that is only read: the value, or the zero value (never a panic)
+			if tvx, ok := t.info.Types[e]; ok {
+				if _, isTuple := tvx.Type.(*types.Tuple); isTuple {
+					t.fail(e, "map index with the second result (v, ok = m[k])")
+				}
+			}
+			p1, base := ft.expr(x.X, nil)
+			p2, idx := ft.expr(x.Index, types.Unalias(XT).Underlying().(*types.Map).Key())
+			return append(p1, p2...), "(" + base + " " + idx + ")"
+		case isBytesLike(k) || k == kSlice:
+			op := "go_index"
+			if k == kSlice {
+				op = "go_index_of"
+			}
+			p1, base := ft.expr(x.X, nil)
+			p2, idx := ft.expr(x.Index, nil)
+			tmp := ft.temp()
+			return append(append(p1, p2...), pre{tmp, fmt.Sprintf("%s %s %s", op, base, idx)}), tmp
 		}
-		p1, base := ft.expr(x.X, nil)
-		p2, idx := ft.expr(x.Index, nil)
-		tmp := ft.temp()
-		return append(append(p1, p2...), pre{tmp, fmt.Sprintf("go_index %s %s", base, idx)}), tmp
+		t.fail(e, "index expression on a value of type %s", XT)
 	case *ast.SliceExpr:
-		if x.Slice3 || !isBytesLike(t.kindOf(t.info.Types[x.X].Type)) {
+		kx := t.kindOf(t.info.Types[x.X].Type)
+		if x.Slice3 || !(isBytesLike(kx) || kx == kSlice) {
 			t.fail(e, "slice expression (three-index, or on a value of type %s)", t.info.Types[x.X].Type)
 		}
+		op, ln := "go_slice", "len"
+		if kx == kSlice {
+			op, ln = "go_slice_of", "len_of"
+		}
 		pres, base := ft.expr(x.X, nil)
-		lo, hi := "0%Z", "(len "+base+")"
+		lo, hi := "0%Z", "("+ln+" "+base+")"
 		if x.Low != nil {
 			var p []pre
 			p, lo = ft.expr(x.Low, nil)
@@ -87,7 +108,7 @@ func (ft *funcTr) expr(e ast.Expr, want types.Type) ([]pre, string) {
 			pres = append(pres, p...)
 		}
 		tmp := ft.temp()
-		return append(pres, pre{tmp, fmt.Sprintf("go_slice %s %s %s", base, lo, hi)}), tmp
+		return append(pres, pre{tmp, fmt.Sprintf("%s %s %s %s", op, base, lo, hi)}), tmp
 	case *ast.SelectorExpr:
 		sel := t.info.Selections[x]
 		if sel == nil || sel.Kind() != types.FieldVal || len(sel.Index()) != 1 {
@@ -191,7 +212,7 @@ func (ft *funcTr) binary(x *ast.BinaryExpr) ([]pre, string) {
 			k = t.kindOf(Ty)
 		}
 		switch k {
-		case kInt:
+		case kInt, kRune:
 			return pres, neg("(" + a + " =? " + b + ")%Z")
 		case kByte:
 			return pres, neg("(beq " + a + " " + b + ")")
@@ -211,7 +232,7 @@ func (ft *funcTr) binary(x *ast.BinaryExpr) ([]pre, string) {
 			k = t.kindOf(Ty)
 		}
 		switch k {
-		case kInt:
+		case kInt, kRune:
 			op := map[token.Token]string{token.LSS: "<?", token.LEQ: "<=?", token.GTR: ">?", token.GEQ: ">=?"}[x.Op]
 			return pres, "(" + a + " " + op + " " + b + ")%Z"
 		case kByte:
@@ -325,17 +346,28 @@ func (ft *funcTr) call(c *ast.CallExpr, want types.Type) ([]pre, string) {
 		tmp := ft.temp()
 		return append(pres, pre{tmp, strings.Join(parts, " ")}), tmp
 	}
-	// library function
+	// library function, or method of a library type (the receiver is the first argument)
 	if sel, ok := ast.Unparen(c.Fun).(*ast.SelectorExpr); ok {
 		if fn, ok := t.info.Uses[sel.Sel].(*types.Func); ok && fn.Pkg() != nil {
 			key := fn.Pkg().Path() + "." + fn.Name()
+			sig := fn.Type().(*types.Signature)
+			if sig.Recv() != nil {
+				key = fn.FullName()
+			}
 			lf, ok := t.cfg.Lib[key]
 			if !ok {
 				t.fail(c, "call of %s, which has no denotation in the table", key)
 			}
-			sig := fn.Type().(*types.Signature)
 			var pres []pre
 			parts := []string{lf.Coq}
+			if sig.Recv() != nil {
+				if lf.IsError {
+					t.fail(c, "method %s as an error constructor", key)
+				}
+				p, v := ft.expr(sel.X, nil)
+				pres = append(pres, p...)
+				parts = append(parts, v)
+			}
 			for i, a := range c.Args {
 				var pt types.Type
 				if i < sig.Params().Len() && !(sig.Variadic() && i >= sig.Params().Len()-1) {
